@@ -30,11 +30,12 @@ def BFile.Coherent (f : BFile) : Prop :=
   0 < f.chunk ∧ (∀ i, i / f.chunk ∉ f.dirty → f.disk.byte i = f.mem.byte i) ∧
   (f.dirty = [] → f.disk.len = f.mem.len)
 
-/-- a buffered write of `bs` at `off`: only the cache changes; the touched chunks become dirty -/
+/-- a buffered write of `bs` at `off`: only the cache changes; the touched chunks become dirty.
+A write of no bytes changes nothing (in particular it does not extend the file, whatever `off`). -/
 def BFile.write (f : BFile) (off : Nat) (bs : List Nat) : BFile :=
   { f with
     mem := { byte := fun i => if off ≤ i ∧ i < off + bs.length then bs.getD (i - off) 0 else f.mem.byte i,
-             len := max f.mem.len (off + bs.length) }
+             len := if bs = [] then f.mem.len else max f.mem.len (off + bs.length) }
     dirty := f.dirty ++ (List.range bs.length).map fun j => (off + j) / f.chunk }
 
 /-- a buffered read never changes anything -/
@@ -65,8 +66,10 @@ def BFile.flushFrom (φ : Faults) : List Nat → BFile → Nat → BFile × Bool
     if φ.fails k then (f.writeRefused c (φ.prefixLen k), false, k + 1)
     else flushFrom φ cs (f.writeBack c) (k + 1)
 
+/-- `dirty` may list a chunk index several times (`write` appends one entry per byte); a flush
+attempts each dirty chunk once, so that every attempted chunk is still dirty when it is attempted. -/
 def BFile.flush (φ : Faults) (f : BFile) (k : Nat) : BFile × Bool × Nat :=
-  BFile.flushFrom φ f.dirty f k
+  BFile.flushFrom φ f.dirty.eraseDups f k
 
 def noFaults : Faults := ⟨fun _ => false, fun _ => 0⟩
 
